@@ -179,15 +179,16 @@ def run(ctx):
             why = vd.get("why")
             trigger = sc["ops"][op][1] if op is not None and sc["ops"][op][0] == "act" else (sc["ops"][op][0] if op is not None else "?")
             feat = "mixed" if "mixed" in sc["features"] else ("branches" if "branches" in sc["features"] else "linear")
-            if why == "completed-with-open-descendant":
-                orphan = orphan_cause(evs[: at + 1], vd.get("tid"))
+            if why in ("completed-with-open-descendant", "open-task-beneath-completed-ancestor"):
+                orphan = orphan_cause(evs[: at + 1], vd.get("tid")) if why == "completed-with-open-descendant" else "started-later"
                 # an acts.core.action act that has ended its own step (with an error that a catch above takes, or any way that lets the flow go on)
                 # is itself still running, completes afterwards and starts its successor: one root cause, whatever ancestor is seen closed first
                 nid_of = {o["tid"]: o["nid"] for _, o in obs_of(res, {"new"})}
                 acting = {a["id"] for st_ in all_steps(sc["models"][0].get("steps", [])) for a in st_.get("acts", []) if a.get("uses") == "acts.core.action"}
-                if nid_of.get(vd.get("tid")) in acting:
+                prev_of = {o["tid"]: o.get("prev") for _, o in obs_of(res, {"new"})}
+                if nid_of.get(vd.get("tid")) in acting or nid_of.get(prev_of.get(vd.get("tid"))) in acting:
                     orphan = "orphan:acting-act"
-                sig = f"C03|{why}|{orphan}"
+                sig = f"C03|completed-with-open-descendant|{orphan}"
             elif why == "open-task-after-nonerror-terminal-event":
                 # which action ended the process
                 ender = next((sc["ops"][i][1] for i, o in obs_of(res, {"pev"}) if o.get("chan") == "default" and o.get("ev") == "complete" and sc["ops"][i][0] == "act"), "run")
